@@ -15,12 +15,14 @@ report contains violation if {
 
 	ref := ast.ref_to_string(rule.head.ref)
 
-	_default_rule_values[ref] == rule.head.value.value
+	rule.head.value.value in _default_rule_values[ref]
 
 	violation := result.fail(rego.metadata.chain(), result.location(rule.head.value))
 }
 
-_default_rule_values[ref] := rule.head.value.value if {
+# a set per name: a module that declares more than one default for the same name is
+# rejected by the compiler, but it parses, and must not make the linter itself fail
+_default_rule_values[ref] contains rule.head.value.value if {
 	some rule in input.rules
 	rule["default"]
 
